@@ -577,3 +577,23 @@ Definition split_slice (v : variant) (sizes : list nat) (a b : option Z) : list 
   else (first, fstart, Z.of_nat (nth first sizes 0%nat))
        :: map (fun k => (k, 0, Z.of_nat (nth k sizes 0%nat))) (seq (S first) (last - first - 1))
        ++ [(last, 0, lstop)].
+
+(* --- InterpolatedLinearOperator._get_indices (element level, one (row, col) pair): with li / lv = left_interp_indices /
+       _values[row] (length k), ri / rv = right_interp_indices / _values[col]:
+         base_vals[b][a] = base[li[a], ri[b]],  interp_values[b][a] = lv[a] * rv[b],  res = (interp_values * base_vals).sum(-1).sum(-1).
+       LinearOperator._get_indices (the default) is the instance k = 1, li = [row], ri = [col], lv = rv = [1]. *)
+Fixpoint zsum_list (l : list Z) : Z := match l with [] => 0 | x :: r => x + zsum_list r end.
+Fixpoint zsum_upto (n : nat) (f : Z -> Z) : Z :=
+  match n with O => 0 | S k => zsum_upto k f + f (Z.of_nat k) end.
+Definition interp_get_indices (K : Z -> Z -> Z) (li lv ri rv : list Z) : Z :=
+  zsum_list (map (fun '(b, vb) => zsum_list (map (fun '(a, va) => va * vb * K a b) (combine li lv))) (combine ri rv)).
+
+(* --- InterpolatedLinearOperator._diagonal, special case of a RootLinearOperator base with a dense root R (rank rk):
+       left_interp(indices, values, R)[i, k] = sum_a values[i, a] * R[indices[i, a], k];
+       diag[i] = (left_interp(left...) * left_interp(right...)).sum(-1) *)
+Definition left_interp_row (R : Z -> Z -> Z) (idx vals : list Z) (k : Z) : Z :=
+  zsum_list (map (fun '(a, va) => va * R a k) (combine idx vals)).
+Definition interp_root_diag (R : Z -> Z -> Z) (rk : nat) (li lv ri rv : list Z) : Z :=
+  zsum_upto rk (fun k => left_interp_row R li lv k * left_interp_row R ri rv k).
+(* RootLinearOperator._get_indices: (root[row, :] * root[col, :]).sum(-1) *)
+Definition root_get_indices (R : Z -> Z -> Z) (rk : nat) (r c : Z) : Z := zsum_upto rk (fun k => R r k * R c k).
